@@ -1,8 +1,69 @@
-import GixModel.Model.C36
-import GixModel.Spec.C36
-namespace GixModel.Props.C36
-open GixModel GixModel.C36
+import GixModel.Lemmas.C36
+/-
+C36 — Wildcard matching agrees with git's wildmatch.  PROPERTY THEOREMS ONLY.
 
-theorem smoke : wildmatch ⟨true, false⟩ [97, 42] [97, 98] = true := by decide +kernel
+`C36.matchRecursive` / `C36.wildmatch` / `C36.Pattern.matches` are the transcriptions of the Rust
+functions (Model/C36.lean), `Spec.C36.dowild` / `Spec.C36.wildmatch` the transcription of git's
+wildmatch.c (Spec/C36.lean). Modes correspond by `flagsOf` (NO_MATCH_SLASH_LITERAL = WM_PATHNAME,
+IGNORE_CASE = WM_CASEFOLD). `PatOk m p` = the pattern has no NUL byte and, under IGNORE_CASE only,
+no `[` and no upper-case letter behind a backslash (the one deliberate deviation of gitoxide, see
+`full_icase_false`).
+-/
+namespace GixModel.Props.C36
+open GixModel GixModel.C36 GixModel.Spec.C36
+
+def NoNul (s : Bytes) : Prop := ∀ c ∈ s, c ≠ 0
+def NoStar (p : Bytes) : Prop := ∀ c ∈ p, c ≠ 42
+
+/-- The property at full strength: for every mode, every NUL-free pattern with fewer than 64 stars
+(the documented recursion bound) and every NUL-free text, gitoxide's wildmatch gives git's answer. -/
+def C36_full : Prop :=
+  ∀ (m : Mode) (p t : Bytes), NoNul p → NoNul t → (p.filter (· == 42)).length < 64 →
+    C36.wildmatch m p t = Spec.C36.wildmatch (flagsOf m) p t
+
+/-- `C36_full` restricted to what is not excluded by the known deviation (`PatOk`) — stated, not proved
+in general (T1 and T2 below are its star-free and one-star instances). -/
+def C36_full_modulo_icase : Prop :=
+  ∀ (m : Mode) (p t : Bytes), PatOk m p → NoNul t → (p.filter (· == 42)).length < 64 →
+    C36.wildmatch m p t = Spec.C36.wildmatch (flagsOf m) p t
+
+/-- T1. Star-free patterns (literals, `?`, escapes, bracket expressions with ranges, negation and
+POSIX classes; all four modes): `match_recursive` returns exactly git's `dowild` result —
+Match / NoMatch / AbortAll alike, never a panic, never the recursion limit. -/
+theorem starfree_eq (m : Mode) (p t : Bytes) (hok : PatOk m p) (hstar : NoStar p) (ht : NoNul t) :
+    matchRecursive m RECURSION_LIMIT p t = ofWm (dowild (flagsOf m) (p.length + 1) none p t) := by
+  unfold matchRecursive RECURSION_LIMIT
+  exact go_eq_dowild_starfree m 63 p t hok hstar (p.length + 1) p t 0 0 none (by simp) ht
+
+/-- T1 for the public function. -/
+theorem starfree_wildmatch_eq (m : Mode) (p t : Bytes) (hok : PatOk m p) (hstar : NoStar p) (ht : NoNul t) :
+    C36.wildmatch m p t = Spec.C36.wildmatch (flagsOf m) p t := by
+  unfold C36.wildmatch Spec.C36.wildmatch
+  rw [starfree_eq m p t hok hstar ht]
+  cases dowild (flagsOf m) (p.length + 1) none p t <;> rfl
+
+-- non-vacuity: a case-sensitive bracket pattern with range, class and negation; an icase pattern
+example : PatOk ⟨true, false⟩ [97, 91, 33, 98, 45, 100, 91, 58, 100, 105, 103, 105, 116, 58, 93, 93, 63] :=
+  ⟨by decide, by intro h; cases h⟩
+example : PatOk ⟨true, true⟩ [65, 92, 47, 63] := ⟨by decide, fun _ => ⟨by decide, by decide⟩⟩
+example : C36.wildmatch ⟨true, false⟩ [97, 91, 33, 98, 45, 100, 91, 58, 100, 105, 103, 105, 116, 58, 93, 93, 63] [97, 120, 122] = true := by
+  decide +kernel
+
+/-- `C36_full` is FALSE of today's code: with IGNORE_CASE, `[A]` matches `a` in gitoxide, not in git
+(git folds the text and literally compared pattern bytes only). Upstream keeps this on purpose
+(gix-pathspec's baseline marks it `git-inconsistency`); recorded in known-findings.txt and replayed
+against the real code by the harness (`wm 2 5b415d 61`). -/
+theorem full_icase_false : ¬ C36_full := by
+  intro h
+  have := h ⟨false, true⟩ [91, 65, 93] [97] (by unfold NoNul; decide) (by unfold NoNul; decide) (by decide)
+  revert this
+  decide +kernel
+
+/-- T3 (top level): every result other than `Match` — NoMatch, AbortAll, AbortToStarStar, the
+recursion limit — is the same `false` for `wildmatch`; the abort codes only steer backtracking. -/
+theorem abort_top_level (m : Mode) (p t : Bytes) :
+    C36.wildmatch m p t = true ↔ matchRecursive m RECURSION_LIMIT p t = .matched := by
+  unfold C36.wildmatch
+  simp
 
 end GixModel.Props.C36
